@@ -5,8 +5,12 @@
 package c40
 
 import (
+	"bufio"
 	"encoding/json"
 	"fmt"
+	"go/ast"
+	"go/parser"
+	"go/token"
 	"io"
 	"net"
 	"net/http"
@@ -14,9 +18,12 @@ import (
 	"os"
 	"os/exec"
 	"path/filepath"
+	"reflect"
 	"runtime"
 	"strings"
 	"sync"
+	"sync/atomic"
+	"syscall"
 	"time"
 
 	"github.com/sarchlab/akita/v5/messaging"
@@ -33,6 +40,9 @@ type input struct {
 	Reqs   []string `json:"reqs"` // pause continue state now tick inspect buffers progress
 	Events int      `json:"events"`
 	Spin   int      `json:"spin"`
+	// Scn "hold": user pause, wait until the engine is idle, start a /api/field inspection of a large
+	// slice and stop reading the response (the handler blocks mid-serialisation), send /api/continue.
+	Scn string `json:"scn,omitempty"`
 }
 
 type childOut struct {
@@ -40,15 +50,23 @@ type childOut struct {
 	Handled  int  `json:"handled"`
 	Done     bool `json:"done"`
 	Requests int  `json:"requests"`
+	// hold scenario
+	During          int    `json:"during,omitempty"`           // events handled while the inspection was observed still in progress
+	ContinueBlocked bool   `json:"continue_blocked,omitempty"` // /api/continue was observed waiting for engineControlMu
+	HoldNote        string `json:"hold_note,omitempty"`
 }
 
 type obs struct {
-	Raced    []string `json:"raced"`
-	Same     bool     `json:"same"`
-	Done     bool     `json:"done"`
-	Requests int      `json:"requests"`
-	Reports  int      `json:"reports"`
-	Note     string   `json:"note,omitempty"`
+	During          int      `json:"during,omitempty"`
+	ContinueBlocked bool     `json:"continue_blocked,omitempty"`
+	Scope           bool     `json:"lock_scope_fact"`
+	ScopeNote       string   `json:"lock_scope_note,omitempty"`
+	Raced           []string `json:"raced"`
+	Same            bool     `json:"same"`
+	Done            bool     `json:"done"`
+	Requests        int      `json:"requests"`
+	Reports         int      `json:"reports"`
+	Note            string   `json:"note,omitempty"`
 }
 
 // ------------------------------------------------------------------ child
@@ -66,6 +84,7 @@ type Comp struct {
 	name    string
 	Counter int
 	Items   []int
+	Big     []int // large only in the "hold" scenario
 
 	tick *modeling.TickScheduler
 	port messaging.Port
@@ -82,6 +101,9 @@ type driver struct {
 	prog    []string
 	spin    int
 	left    int
+	hcount  atomic.Int64 // handled work events (read by the harness goroutine)
+	chain   bool         // hold scenario: every handler schedules the next event until stop
+	stop    atomic.Bool
 }
 
 func (c *Comp) Name() string { return c.name }
@@ -109,6 +131,10 @@ func (d *driver) Handle(e timing.Event) error {
 		return nil
 	}
 	d.handled++
+	d.hcount.Add(1)
+	if d.chain && !d.stop.Load() {
+		d.eng.Schedule(workEvent{e.Time() + 1000})
+	}
 	busy(d.spin)
 	for _, a := range d.prog {
 		switch a {
@@ -117,6 +143,9 @@ func (d *driver) Handle(e timing.Event) error {
 			c.Items = append(c.Items, c.Counter)
 			if len(c.Items) > 64 {
 				c.Items = c.Items[:0]
+			}
+			if n := len(c.Big); n > 0 {
+				c.Big[c.Counter%n] = c.Counter
 			}
 		case "sched":
 			if d.left > 0 {
@@ -285,6 +314,202 @@ func runSim(in input, withRequests bool) childOut {
 	return out
 }
 
+// ---- the held-inspection history ----
+
+func stackHas(pred func(header, body string) bool) bool {
+	buf := make([]byte, 1<<21)
+	n := runtime.Stack(buf, true)
+	for _, g := range strings.Split(string(buf[:n]), "\n\n") {
+		nl := strings.IndexByte(g, '\n')
+		if nl < 0 {
+			continue
+		}
+		if pred(g[:nl], g[nl:]) {
+			return true
+		}
+	}
+	return false
+}
+
+func engineIdle(par bool) bool {
+	if par {
+		return stackHas(func(h, b string) bool {
+			return strings.Contains(h, "sync.Mutex.Lock") && strings.Contains(b, "(*ParallelEngine).Run") && !strings.Contains(b, "EventQueueImpl")
+		})
+	}
+	return stackHas(func(h, b string) bool {
+		return strings.Contains(h, "sync.Cond.Wait") && strings.Contains(b, "(*SerialEngine).waitForResume")
+	})
+}
+
+func continueWaiting() bool {
+	return stackHas(func(h, b string) bool {
+		return strings.Contains(h, "sync.Mutex.Lock") && strings.Contains(b, "(*Monitor).continueEngine")
+	})
+}
+
+func inspectionInProgress() bool {
+	return stackHas(func(h, b string) bool { return strings.Contains(b, "(*Monitor).listFieldValue") })
+}
+
+// pollUntil yields (no sleeping for ordering; a 50us back-off only) until cond holds or the safety deadline passes.
+func pollUntil(cond func() bool, d time.Duration) bool {
+	deadline := time.Now().Add(d)
+	for i := 0; !cond(); i++ {
+		if time.Now().After(deadline) {
+			return false
+		}
+		runtime.Gosched()
+		if i > 100 {
+			time.Sleep(50 * time.Microsecond)
+		}
+	}
+	return true
+}
+
+func runHold(in input) childOut {
+	var eng timing.Engine
+	if in.Par {
+		eng = timing.NewParallelEngine()
+	} else {
+		eng = timing.NewSerialEngine()
+	}
+	c := &Comp{name: "Comp", Big: make([]int, 400000)}
+	d := &driver{c: c, eng: eng, prog: in.Prog, spin: in.Spin, chain: true}
+	c.tick = modeling.NewTickScheduler("Comp", eng, 1*timing.GHz)
+	c.port = messaging.NewPort(nil, 4, 4, "Comp.Port")
+	eng.(timing.HandlerRegistrar).RegisterHandler("Comp", d)
+	mon := monitoring2.NewMonitor()
+	mon.RegisterEngine(eng)
+	mon.RegisterComponent(c)
+	d.bar = mon.CreateProgressBar("work", 1)
+	eng.Schedule(workEvent{1000})
+	port := freePort()
+	mon.WithPortNumber(port)
+	stderr := os.Stderr
+	os.Stderr, _ = os.Open(os.DevNull)
+	mon.StartServer()
+	os.Stderr = stderr
+	defer mon.StopServer()
+	addr := fmt.Sprintf("127.0.0.1:%d", port)
+	base := "http://" + addr
+	client := &http.Client{Timeout: 60 * time.Second}
+	get := func(path string) {
+		resp, err := client.Get(base + path)
+		if err == nil {
+			io.Copy(io.Discard, resp.Body)
+			resp.Body.Close()
+		}
+	}
+	get("/api/mode")
+	out := childOut{}
+	done := make(chan struct{})
+	go func() {
+		_ = eng.Run()
+		close(done)
+	}()
+	finish := func() {
+		d.stop.Store(true)
+		get("/api/continue")
+		select {
+		case <-done:
+			out.Done = true
+		case <-time.After(20 * time.Second):
+		}
+		out.Counter, out.Handled = c.Counter, int(d.hcount.Load())
+	}
+	// let the run get going, then the user pause; wait until the engine is idle
+	if !pollUntil(func() bool { return d.hcount.Load() >= 50 }, 20*time.Second) {
+		out.HoldNote = "engine did not start"
+		finish()
+		return out
+	}
+	get("/api/pause")
+	if !pollUntil(func() bool { return engineIdle(in.Par) }, 20*time.Second) {
+		out.HoldNote = "engine did not become idle after /api/pause"
+		finish()
+		return out
+	}
+	h0 := d.hcount.Load()
+	// the inspection, over a raw connection with a tiny receive buffer; we read only the beginning of the body
+	dialer := net.Dialer{Timeout: 10 * time.Second, Control: func(network, address string, rc syscall.RawConn) error {
+		return rc.Control(func(fd uintptr) { syscall.SetsockoptInt(int(fd), syscall.SOL_SOCKET, syscall.SO_RCVBUF, 4096) })
+	}}
+	conn, err := dialer.Dial("tcp", addr)
+	if err != nil {
+		out.HoldNote = "dial: " + err.Error()
+		finish()
+		return out
+	}
+	defer conn.Close()
+	path := "/api/field/" + url.PathEscape(`{"comp_name":"Comp","field_name":"Big"}`)
+	fmt.Fprintf(conn, "GET %s HTTP/1.1\r\nHost: x\r\nConnection: close\r\n\r\n", path)
+	br := bufio.NewReaderSize(conn, 512)
+	got := 0
+	sawBody := false
+	hdrEnd := false
+	for got < 1<<16 && !sawBody {
+		line, err := br.ReadString('\n')
+		got += len(line)
+		if err != nil {
+			break
+		}
+		if !hdrEnd {
+			if line == "\r\n" {
+				hdrEnd = true
+			}
+			continue
+		}
+		if strings.Contains(line, "dict") || len(line) > 2 {
+			sawBody = true // the serializer is past its first 4 KB of output: the inspection is in progress
+		}
+	}
+	if !sawBody {
+		out.HoldNote = "no response body from the inspection"
+		finish()
+		return out
+	}
+	contDone := make(chan struct{})
+	go func() {
+		get("/api/continue")
+		close(contDone)
+	}()
+	// decisive observation, no sleep: either /api/continue is seen waiting for engineControlMu, or it returns
+	returned := false
+	pollUntil(func() bool {
+		select {
+		case <-contDone:
+			returned = true
+			return true
+		default:
+		}
+		if continueWaiting() {
+			out.ContinueBlocked = true
+			return true
+		}
+		return false
+	}, 20*time.Second)
+	if returned {
+		// the engine was resumed; did it handle events while the inspection handler was still running?
+		pollUntil(func() bool { return d.hcount.Load() > h0 }, 5*time.Second)
+		n := d.hcount.Load() - h0
+		if n > 0 && inspectionInProgress() {
+			out.During = int(n)
+		} else if n > 0 {
+			out.HoldNote = "continue returned after the inspection had finished (response not held: inconclusive)"
+		}
+	}
+	// release the inspection: read the rest of the response
+	io.Copy(io.Discard, br)
+	select {
+	case <-contDone:
+	case <-time.After(20 * time.Second):
+		out.HoldNote += " continue never returned"
+	}
+	finish()
+	return out
+}
+
 func child() {
 	var in input
 	b, err := os.ReadFile(os.Args[2])
@@ -295,8 +520,14 @@ func child() {
 		os.Exit(3)
 	}
 	res := map[string]childOut{}
-	res["plain"] = runSim(in, false)
-	res["monitored"] = runSim(in, true)
+	if in.Scn == "hold" {
+		r := runHold(in)
+		res["plain"], res["monitored"] = childOut{Done: r.Done, Counter: r.Counter, Handled: r.Handled}, r
+		res["plain"] = res["monitored"]
+	} else {
+		res["plain"] = runSim(in, false)
+		res["monitored"] = runSim(in, true)
+	}
 	ob, _ := json.Marshal(res)
 	os.WriteFile(os.Args[3], ob, 0o644)
 }
@@ -314,7 +545,7 @@ func init() {
 			"127.0.0.1) while Engine.Run executes ~900-1350 (parallel) / 9000-13500 (serial) events; the scenario runs in a race-instrumented SUBPROCESS " +
 			"(GORACE halt_on_error=0 exitcode=0 log_path=...), the race log is parsed into the set of endpoints whose handler frames " +
 			"appear in a report, and the final component results are compared with an unmonitored run in the same subprocess. " +
-			"Directed: every endpoint alone on both engines, the full safe mix, pause/continue storms. Non-trivial: >= 20 requests " +
+			"Directed: every endpoint alone on both engines, the full safe mix, pause/continue storms, and the held-inspection history (user pause, engine observed idle by its goroutine stack, /api/field inspection of a 400000-element slice over a raw connection whose client stops reading, /api/continue sent meanwhile; observed: continue waits for engineControlMu / events handled while the inspection handler is still running). The lock-scope fact the model relies on is extracted from monitoring2/monitor.go by go/ast on every run. Non-trivial: >= 20 requests " +
 			"were served while the engine was running. Distinct = distinct input hash.",
 		Gen: gen, Run: run,
 	})
@@ -363,6 +594,111 @@ func parseRaces(dir string) (map[string]bool, int, []string) {
 		}
 	}
 	return raced, n, unattributed
+}
+
+// lockScopeFact extracts from monitoring2/monitor.go (the tree the harness was built against) the
+// fact the model relies on: pauseForInspection locks engineControlMu first, does not unlock it
+// itself, and every resume closure it returns unlocks it (so the whole inspection is ONE critical
+// section); pauseEngine and continueEngine lock the same mutex before touching the engine.
+func lockScopeFact() (bool, string) {
+	file, _ := runtime.FuncForPC(reflect.ValueOf(monitoring2.NewMonitor).Pointer()).FileLine(0)
+	fset := token.NewFileSet()
+	f, err := parser.ParseFile(fset, file, nil, 0)
+	if err != nil {
+		return false, "cannot parse " + file
+	}
+	isMuCall := func(n ast.Node, method string) bool {
+		call, ok := n.(*ast.CallExpr)
+		if !ok {
+			return false
+		}
+		sel, ok := call.Fun.(*ast.SelectorExpr)
+		if !ok || sel.Sel.Name != method {
+			return false
+		}
+		inner, ok := sel.X.(*ast.SelectorExpr)
+		return ok && inner.Sel.Name == "engineControlMu"
+	}
+	firstIsLock := func(fd *ast.FuncDecl) bool {
+		if fd.Body == nil || len(fd.Body.List) == 0 {
+			return false
+		}
+		es, ok := fd.Body.List[0].(*ast.ExprStmt)
+		return ok && isMuCall(es.X, "Lock")
+	}
+	funcs := map[string]*ast.FuncDecl{}
+	for _, d := range f.Decls {
+		if fd, ok := d.(*ast.FuncDecl); ok && fd.Recv != nil {
+			funcs[fd.Name.Name] = fd
+		}
+	}
+	for _, name := range []string{"pauseEngine", "continueEngine", "pauseForInspection"} {
+		fd := funcs[name]
+		if fd == nil {
+			return false, name + " not found"
+		}
+		if !firstIsLock(fd) {
+			return false, name + " does not start with engineControlMu.Lock()"
+		}
+	}
+	pfi := funcs["pauseForInspection"]
+	ok, note := true, ""
+	// outside the returned closures: no Unlock (neither direct nor deferred), exactly the initial Lock
+	var walk func(n ast.Node, inLit bool)
+	nLits := 0
+	walk = func(n ast.Node, inLit bool) {
+		ast.Inspect(n, func(x ast.Node) bool {
+			switch v := x.(type) {
+			case *ast.FuncLit:
+				if x == n {
+					return true
+				}
+				nLits++
+				unlocks, locks := false, false
+				ast.Inspect(v.Body, func(y ast.Node) bool {
+					if isMuCall(y, "Unlock") {
+						unlocks = true
+					}
+					if isMuCall(y, "Lock") {
+						locks = true
+					}
+					return true
+				})
+				if !unlocks || locks {
+					ok, note = false, "a resume closure of pauseForInspection does not simply unlock engineControlMu"
+				}
+				return false
+			case *ast.CallExpr:
+				if isMuCall(v, "Unlock") && !inLit {
+					ok, note = false, "pauseForInspection unlocks engineControlMu before returning"
+				}
+			}
+			return true
+		})
+	}
+	walk(pfi.Body, false)
+	if nLits == 0 {
+		ok, note = false, "pauseForInspection returns no resume closure"
+	}
+	// the inspection handlers call pauseForInspection and defer the resume
+	for _, name := range []string{"listComponentDetails", "listFieldValue"} {
+		fd := funcs[name]
+		uses := false
+		if fd != nil {
+			ast.Inspect(fd.Body, func(y ast.Node) bool {
+				if c, k := y.(*ast.CallExpr); k {
+					if sel, k2 := c.Fun.(*ast.SelectorExpr); k2 && sel.Sel.Name == "pauseForInspection" {
+						uses = true
+					}
+				}
+				return true
+			})
+		}
+		if !uses {
+			ok, note = false, name+" does not call pauseForInspection"
+		}
+	}
+	return ok, note
 }
 
 func coqReq(r string) string {
@@ -414,6 +750,11 @@ func run(raw json.RawMessage) (hx.Case, error) {
 		o.Same = p.Counter == m.Counter && p.Handled == m.Handled
 		o.Done = p.Done && m.Done
 		o.Requests = m.Requests
+		o.During = m.During
+		o.ContinueBlocked = m.ContinueBlocked
+		if m.HoldNote != "" {
+			o.Note += " hold: " + m.HoldNote
+		}
 	}
 	raced, n, unattr := parseRaces(dir)
 	o.Reports = n
@@ -438,7 +779,10 @@ func run(raw json.RawMessage) (hx.Case, error) {
 		racedT[i] = coqReq(r)
 	}
 	c := hx.Case{Obs: o}
-	c.Coq = hx.App("mk_case", hx.B(in.Par), hx.L(progT), hx.L(reqT), hx.L(racedT), hx.B(o.Same), hx.B(o.Done))
+	o.Scope, o.ScopeNote = lockScopeFact()
+	c.Obs = o
+	c.Coq = hx.App("mk_case", hx.B(in.Par), hx.L(progT), hx.L(reqT), hx.L(racedT), hx.B(o.Same), hx.B(o.Done),
+		hx.B(in.Scn == "hold"), hx.B(o.During > 0), hx.B(o.Scope))
 	eng := "serial"
 	if in.Par {
 		eng = "parallel"
@@ -448,6 +792,10 @@ func run(raw json.RawMessage) (hx.Case, error) {
 		c.Tags = append(c.Tags, "endpoint:"+r)
 	}
 	c.Nontrivial = o.Requests >= 20
+	if in.Scn == "hold" {
+		c.Tags = append(c.Tags, "history:held-inspection+continue")
+		c.Nontrivial = o.ContinueBlocked || o.During > 0
+	}
 	// known classifiers, from the input shape only
 	has := func(xs []string, x string) bool {
 		for _, y := range xs {
@@ -458,6 +806,13 @@ func run(raw json.RawMessage) (hx.Case, error) {
 		return false
 	}
 	switch {
+	case in.Scn == "hold":
+		// user pause first, engine observed idle: on the parallel engine none of the known races is in play;
+		// SerialEngine.Pause establishes no happens-before edge from the engine to the caller, so the race
+		// detector may still flag the inspection there (that is F-C40-3)
+		if !in.Par && (has(in.Prog, "comp") || has(in.Prog, "tick")) {
+			c.Known = "serial_inspection_race"
+		}
 	case has(in.Reqs, "progress") && has(in.Prog, "prog"):
 		c.Known = "progress_endpoint_race"
 	case !in.Par && has(in.Reqs, "tick"):
@@ -494,6 +849,10 @@ func gen(r *hx.Rand, tier string) []json.RawMessage {
 	add(input{Par: true, Prog: full, Reqs: []string{"now", "inspect", "pause", "tick", "inspect", "buffers", "continue", "state"}, Events: 900, Spin: 1000})
 	add(input{Par: true, Prog: []string{"comp", "sched", "tick", "port", "now"}, Reqs: []string{"progress", "inspect", "now", "tick"}, Events: 900, Spin: 1000})
 	add(input{Par: false, Prog: []string{"sched", "port", "now"}, Reqs: []string{"inspect", "progress", "buffers", "state"}, Events: 9000, Spin: 1000})
+	// directed: the held inspection with a concurrent /api/continue, both engines
+	// (the parallel-engine instance and a serial instance whose handlers do not write component state — outside
+	// F-C40-3, the deterministic observable decides — are in corpus/C40 and always run first)
+	add(input{Par: false, Prog: []string{"comp", "port", "now"}, Reqs: []string{"pause", "inspect", "continue"}, Spin: 200, Scn: "hold"})
 	n := 1
 	if tier == "thorough" {
 		n = 16
